@@ -34,6 +34,8 @@ type ServerOpts struct {
 	WithContext   bool
 	Host          string // default 127.0.0.1
 	Relay         bool   // the client connects through a segment-choosing relay (Env only)
+	// WriteTimeout: the adapter's <writetimeout> setting (0 = default: none)
+	WriteTimeout time.Duration
 }
 
 type Server struct {
@@ -65,7 +67,7 @@ func StartServer(disp any, imp any, o ServerOpts) (*Server, error) {
 	p := tars.VerifBindDefaultApp(tars.NewTarsProtocol(d, imp, o.WithContext))
 	conf := &transport.TarsServerConf{
 		Proto: o.Proto, Address: o.Host + ":0", MaxInvoke: o.MaxInvoke, QueueCap: o.QueueCap,
-		AcceptTimeout: 500 * time.Millisecond, HandleTimeout: o.HandleTimeout, IdleTimeout: 600 * time.Second,
+		AcceptTimeout: 500 * time.Millisecond, HandleTimeout: o.HandleTimeout, IdleTimeout: 600 * time.Second, WriteTimeout: o.WriteTimeout,
 		TCPNoDelay: true, TCPReadBuffer: 128 << 10, TCPWriteBuffer: 128 << 10,
 	}
 	srv := transport.NewTarsServer(p, conf)
